@@ -357,9 +357,10 @@ def gen_long(rng, cfgs, pts_sub, thorough):
     must pair ITS bases with ITS scalars): the stream is given intensionally (see Run.v op 11); non-zero scalars sit at
     the chunk border (2^20 - 1, 2^20, 2^20 + 1), at the very end and at a few random places, everything else is 0."""
     STEP = 1 << 20
-    gs = [g for g in cfgs if g.toy] [:1] + ([g for g in cfgs if not g.toy][:1] if thorough else [])
+    # the toy curve with the LARGEST prime order (109): a wrong sum coincides with the right one with probability 1/r
+    gs = sorted([g for g in cfgs if g.toy], key=lambda g: -g.r)[:1] + ([g for g in cfgs if not g.toy][:1] if thorough else [])
     for g in gs:
-        sub = [P for P in pts_sub[g.cid]][:5] or pts_sub[g.cid]
+        sub = [P for P in pts_sub[g.cid] if P != g.c.ident][:7] or pts_sub[g.cid]      # 7 distinct non-identity bases, cyclic
         for extra in ([9] if not thorough else [1, 9, 4097]):
             n = STEP + extra
             idxs = sorted({0, 1, STEP - 1, STEP, n - 1, rng.randrange(2, STEP - 1)} | ({STEP + 1} if extra > 2 else set()))
